@@ -72,6 +72,8 @@ def closed_form_tol(N, E, omega):
 
 def curvature_check(out, sig, model, N, k, om, r2_of_t, tol):
     """omega = N - (2/N) sum (N-t) x_t + R, 0 <= R <= (2/N) sum (N-t) x_t^2 (x_t = k^2 <r^2>_t/6), judged where max x_t <= 0.3"""
+    if N < 2:
+        return False        # a single site: omega = 1, there is no pair to expand
     t = np.arange(1, N)
     r2 = r2_of_t(t)
     w = (N - t) * 2.0 / N
@@ -93,7 +95,7 @@ def curvature_check(out, sig, model, N, k, om, r2_of_t, tol):
 # --------------------------------------------------------------------------- Gaussian / FJC / ring
 
 def chain_spec(max_dom):
-    n = st.one_of(st.integers(2, 50), st.integers(2, 50), st.floats(0.4, 4.0).map(lambda e: int(10 ** e)))
+    n = st.one_of(st.integers(1, 50), st.integers(2, 50), st.sampled_from([1, 2, 3]), st.floats(0.4, 4.0).map(lambda e: int(10 ** e)))
     # 'typed': how the numeric parameters are passed (python floats / ints, numpy scalars, float chain length) and whether k is
     # handed over as a strided view of a longer array -- none of this may change a value
     return st.fixed_dictionaries({'model': st.sampled_from(['Gaussian', 'FreelyJointedChain', 'FJC', 'GaussianRing']),
